@@ -668,16 +668,17 @@ fn encode_genotype_str(genotype: &str) -> io::Result<Vec<i8>> {
     }
 
     fn encode(s: &str, phasing: &str) -> io::Result<i8> {
-        if s == MISSING_ALLELE {
-            return Ok(0);
-        }
-
-        let j: i8 = s
-            .parse()
-            .map_err(|e| io::Error::new(io::ErrorKind::InvalidInput, e))?;
         let is_phased = phasing == "|";
 
-        let mut i = (j + 1) << 1;
+        let mut i = if s == MISSING_ALLELE {
+            0
+        } else {
+            let j: i8 = s
+                .parse()
+                .map_err(|e| io::Error::new(io::ErrorKind::InvalidInput, e))?;
+
+            (j + 1) << 1
+        };
 
         if is_phased {
             i |= 0x01;
@@ -705,13 +706,14 @@ fn encode_genotype_str(genotype: &str) -> io::Result<Vec<i8>> {
 
 fn encode_genotype(genotype: &dyn Genotype) -> io::Result<Vec<i8>> {
     fn encode(position: Option<usize>, phasing: Phasing) -> io::Result<i8> {
-        let i = if let Some(position) = position {
-            i8::try_from(position).map_err(|e| io::Error::new(io::ErrorKind::InvalidData, e))?
-        } else {
-            return Ok(0);
-        };
+        let mut n = if let Some(position) = position {
+            let i = i8::try_from(position)
+                .map_err(|e| io::Error::new(io::ErrorKind::InvalidData, e))?;
 
-        let mut n = (i + 1) << 1;
+            (i + 1) << 1
+        } else {
+            0
+        };
 
         if phasing == Phasing::Phased {
             n |= 0x01;
